@@ -24,6 +24,7 @@ import H4.Driver.DD
 import H4.Driver.Tools
 import H4.Driver.Ro
 import H4.Driver.Ids
+import H4.Driver.Rec
 import H4.Driver.Crash
 open H4.Driver
 
@@ -50,6 +51,7 @@ structure World where
 def stepWorld (w : World) (engine : String) (args : List String) : World × String :=
   match engine with
   | "rle" => (w, stepRle args)
+  | "rec" => (w, stepRec args)
   | "ro" => let (r, out) := stepRo w.ro args; ({ w with ro := r }, out)
   | "ids" => let (r, out) := stepIds w.ids args; ({ w with ids := r }, out)
   | "crash" => let (r, out) := stepCrash w.crash args; ({ w with crash := r }, out)
